@@ -1156,11 +1156,33 @@ func (e *Engine) findIndicesAhoCorasick(haystack []byte) (int, int, bool) {
 	}
 	atomic.AddUint64(&e.stats.AhoCorasickSearches, 1)
 
-	m, found := e.ahoCorasick.Find(haystack, 0)
+	return e.ahoCorasickSpan(haystack, 0)
+}
+
+// ahoCorasickSpan returns the leftmost-first match at or after 'at' for the
+// UseAhoCorasick strategy.
+//
+// The automaton reports the occurrence that ENDS first. If no literal occurs inside
+// another one that is the leftmost-first match: an occurrence that started earlier
+// would have to contain it. Otherwise (dqs inside rdqs1b; xbc before xbcd) an earlier
+// or an earlier-listed occurrence can end later. Every occurrence ends at or after the
+// reported end and is at most ahoCorasickMaxLen bytes long, so no match starts before
+// end-maxLen: the Pike VM decides the span from there.
+func (e *Engine) ahoCorasickSpan(haystack []byte, at int) (int, int, bool) {
+	m, found := e.ahoCorasick.Find(haystack, at)
 	if !found {
 		return -1, -1, false
 	}
-	return m.Start, m.End, true
+	if !e.ahoCorasickNested {
+		return m.Start, m.End, true
+	}
+	lo := m.End - e.ahoCorasickMaxLen
+	if lo < at {
+		lo = at
+	}
+	state := e.getSearchState()
+	defer e.putSearchState(state)
+	return state.pikevm.SearchWithSlotTableAt(haystack, lo, nfa.SearchModeFind)
 }
 
 // findIndicesAhoCorasickAt returns indices using Aho-Corasick starting at position 'at' - zero alloc.
@@ -1170,11 +1192,7 @@ func (e *Engine) findIndicesAhoCorasickAt(haystack []byte, at int) (int, int, bo
 	}
 	atomic.AddUint64(&e.stats.AhoCorasickSearches, 1)
 
-	m, found := e.ahoCorasick.Find(haystack, at)
-	if !found {
-		return -1, -1, false
-	}
-	return m.Start, m.End, true
+	return e.ahoCorasickSpan(haystack, at)
 }
 
 // =============================================================================
